@@ -16,8 +16,8 @@ func init() {
 		Explanation: "The operator table is finite and is decided exactly. Extraction: from parseExpr the chain of level functions is followed through the unique call made before any token is consumed (the first-operand parser); for every BinaryExpr/UnaryExpr/InExpr/IsNullExpr/IsBoolExpr/BetweenExpr/SelectorExpr/IndexExpr allocation the token sequence under which it is reached (TKAI facts on the phi edges of the operator variable / first consumed token), the operator constant, the parser of each operand and whether the node feeds back into the left operand of the next iteration (left-associative) are read off the SSA. " +
 			"R1 the extracted table equals the GoogleSQL table (levels, tokens -> operator constants, associativity, right operand one level tighter, prefix operators recurse into their own level, comparison family non-associative with operands and BETWEEN bounds at the bitwise-or level). " +
 			"R2 exprPrec (the printer's table, read from its type/constant switch) is order-isomorphic to the parser levels for every operator, and for every paren(p, x.F) call the types/operators that can flow into x.F (VALUE analysis of the parser) have exprPrec <= p, so SQL() never adds a parenthesis to a parser-built tree. " +
-			"R3 every ParenExpr wraps exactly the value returned by parseExpr and the function consuming '(' expr ')' never returns the inner expression unwrapped.",
-		Rules: []ruleFn{ruleC07R1, ruleC07R2, ruleC07R3, ruleC07R4, ruleC11R4},
+			"R3 every ParenExpr wraps exactly the value returned by parseExpr and the function consuming '(' expr ')' never returns the inner expression unwrapped. R5 no SQL() method prints the same pieces both bare and wrapped in parentheses (parentheses are decided by precedence only).",
+		Rules: []ruleFn{ruleC07R1, ruleC07R2, ruleC07R3, ruleC07R4, ruleC07R5, ruleC11R4},
 	})
 }
 
@@ -912,6 +912,63 @@ func onlyAllocs(v ssa.Value, seen map[ssa.Value]bool) bool {
 		return true
 	}
 	return false
+}
+
+// ruleC07R5: parentheses are decided by precedence, in one place. A SQL() method that returns the same pieces once bare
+// and once wrapped in "(" … ")" decides about parentheses at run time by some other test (the operand's text, a flag): the
+// printed form then has parentheses the source did not have — or lacks them where the test does not fire.
+func ruleC07R5(w *World, r *Report) {
+	const rule = "C07/R5"
+	r.rule(rule, "no SQL() method of an expression node (other than through the parenthesising function of C07/R2) prints the same sequence of pieces both bare and wrapped in a pair of parentheses: parentheses around an operand are a matter of precedence only", 100)
+	pf, _ := w.parenFn()
+	n := 0
+	for _, ns := range w.Catalog().Structs {
+		pm := w.PrintModel(ns)
+		if pm == nil || pm.fn == pf {
+			continue
+		}
+		n++
+		construct := "SQL() of " + ns.Name
+		key := func(seq []Piece) string {
+			var ps []string
+			for _, p := range seq {
+				ps = append(ps, p.kind+"|"+p.text+"|"+p.field)
+			}
+			return strings.Join(ps, " ; ")
+		}
+		bare := map[string]bool{}
+		for _, seq := range pm.seqs {
+			bare[key(seq)] = true
+		}
+		bad := ""
+		for _, seq := range pm.seqs {
+			if len(seq) < 3 {
+				continue
+			}
+			f, l := seq[0], seq[len(seq)-1]
+			if f.kind != "const" || l.kind != "const" || f.text != "(" || l.text != ")" {
+				continue
+			}
+			inner := seq[1 : len(seq)-1]
+			hasOperand := false
+			for _, p := range inner {
+				if p.kind == "field-sql" || p.kind == "paren" {
+					hasOperand = true
+				}
+			}
+			if hasOperand && bare[key(inner)] {
+				bad = "returns " + key(inner) + " both as it is and wrapped in parentheses"
+			}
+		}
+		if bad != "" {
+			r.bad(rule, construct, w.pos(pm.fn.Pos()), bad+": the parentheses depend on a run-time test other than precedence")
+		} else {
+			r.ok(rule, construct, w.pos(pm.fn.Pos()), "no sequence is printed both bare and parenthesised")
+		}
+	}
+	if n == 0 {
+		r.errorf("no SQL() method modelled")
+	}
 }
 
 // ruleC07R4: the printer's table is complete for the expression node types and puts every operand form that no
